@@ -144,6 +144,16 @@ h_callback(void * cookie, struct http_response * res)
 	r.body = res->body;
 	return ((h_cb)(h_cookie, &r));
 }
+static const char * h_tls_host = NULL;
+
+/* NULL: plain http_request; otherwise https_request verifying this host name. */
+void
+s_http_tls(const char * host)
+{
+
+	h_tls_host = host;
+}
+
 void *
 s_http_request(void * addrs, const char * method, const char * path, int nh, const uint8_t * body, size_t bodylen, size_t maxrlen, s_http_cb cb, void * cookie)
 {
@@ -157,6 +167,8 @@ s_http_request(void * addrs, const char * method, const char * path, int nh, con
 	R.headers = h_hdrs;
 	R.bodylen = bodylen;
 	R.body = body;
+	if (h_tls_host != NULL)
+		return (https_request(addrs, &R, maxrlen, h_callback, NULL, h_tls_host));
 	return (http_request(addrs, &R, maxrlen, h_callback, NULL));
 }
 void s_http_cancel(void * h) { http_request_cancel(h); }
